@@ -231,6 +231,17 @@ def r3(ctx):
     ctx.check("SSM.get_segment:destination", len(st) == 1 and norm(st[0].value) == "self.pdu_address", where(c.module, f), "segments go to the transaction's peer")
 
 
+def _acks_go_to_peer(ctx, c, f, cname, mname, nodes, deliver, peer):
+    """every segment-ack built on the path is handed to the peer-directed send, never to the application"""
+    names = {norm(n.targets[0]) for n in nodes if isinstance(n, ast.Assign) and isinstance(n.value, ast.Call) and norm(n.value.func) == "SegmentAckPDU"}
+    if not names:
+        return
+    up = [n for n in nodes if isinstance(n, ast.Call) and self_call(n) == deliver and n.args and norm(n.args[0]) in names]
+    down = [n for n in nodes if isinstance(n, ast.Call) and self_call(n) == peer and n.args and norm(n.args[0]) in names]
+    ctx.check("%s.%s:segment-acks-go-to-the-peer" % (cname, mname), not up and len(down) == len(names), where(c.module, (up or [f])[0]),
+              "a segment-ack is handed to self.%s (toward the application) instead of self.%s (toward the peer): the sender never hears about the gap" % (deliver, peer))
+
+
 def _receiver(ctx, cname, mname, deliver, nak_srv):
     prog = ctx.prog
     c, f = _fn(ctx, cname, mname)
@@ -254,6 +265,7 @@ def _receiver(ctx, cname, mname, deliver, nak_srv):
     ctx.check("%s.%s:segmented-guard" % (cname, mname), segs == [True], where(c.module, app), "an unsegmented PDU must not be appended")
     ps = enumerate_paths(f)
     ctx.count("paths", len(ps))
+    peer = "request" if deliver == "response" else "response"       # the method of this state machine that sends toward the other device
     for p in ps:
         if p.term == "raise":
             continue
@@ -275,9 +287,11 @@ def _receiver(ctx, cname, mname, deliver, nak_srv):
                 ok = len(acks) == 1 and prog.try_const(c.module, acks[0].args[0]) in (1, True) and prog.try_const(c.module, acks[0].args[1]) == nak_srv \
                     and norm(acks[0].args[2]) == "self.invokeID"
                 ctx.check("%s.%s:negative-ack" % (cname, mname), ok, where(c.module, f), "an out-of-order segment must be answered with one negative segment-ack (nak=1, srv=%d) carrying the invoke ID" % nak_srv)
-                sent = [n for n in calls if self_call(n) in ("request", "response") and n.args and isinstance(n.args[0], ast.Name)]
-                ctx.check("%s.%s:negative-ack-sent" % (cname, mname), len(sent) == 1, where(c.module, f), "negative ack not sent exactly once")
+                sent = [n for n in calls if self_call(n) == peer and n.args and isinstance(n.args[0], ast.Name)]
+                ctx.check("%s.%s:negative-ack-sent" % (cname, mname), len(sent) == 1, where(c.module, f), "negative ack not sent to the peer (self.%s) exactly once" % peer)
+            _acks_go_to_peer(ctx, c, f, cname, mname, nodes, deliver, peer)
             continue
+        _acks_go_to_peer(ctx, c, f, cname, mname, nodes, deliver, peer)
         i_app = nodes.index(app)
         upd = [(i, n) for i, n in enumerate(nodes) if isinstance(n, ast.Assign) and norm(n.targets[0]) == key_l and i > i_app]
         ok = len(upd) == 1
@@ -541,3 +555,9 @@ def r7(ctx):
                               facts={"seq8_fields": sorted(seq8)})
     if n == 0:
         raise ShapeError("no fill_window call sites")
+
+
+@rule("C05.R9", "both sides run the transfer with the negotiated window: min(sender's proposal, own) on the receiving side, and every segment-ack carries it", floor=4, engines="E5 (shared with C12.R4)")
+def r9(ctx):
+    from .c12 import window_agreement
+    window_agreement(ctx)
